@@ -40,42 +40,76 @@ def register(reg, repo):
         bb = q("bb!inv")
         gb = z3.And(heap.sel("$alloc", bb), eng.isinstance_f(bb, [eng.ct.cls("BatchBase")]))
         return [
-            z3.ForAll([s, j], z3.Implies(z3.And(g, 0 <= j, j < heap.sel("$llen", tl)),
+            smt.forall([s, j], z3.Implies(z3.And(g, 0 <= j, j < heap.sel("$llen", tl)),
                                          z3.And(heap.sel("$alloc", el), eng.isinstance_f(el, [eng.ct.cls("FutureBase")]))),
                       patterns=[z3.Select(heap.sel("$litem", heap.sel("_tasks", s)), j)]),
-            z3.ForAll([s, b], z3.Implies(z3.And(g, z3.Select(heap.sel("$smem", bs), b)),
+            smt.forall([s, b], z3.Implies(z3.And(g, z3.Select(heap.sel("$smem", bs), b)),
                                          z3.And(heap.sel("$alloc", b), eng.isinstance_f(b, [eng.ct.cls("BatchBase")]))),
                       patterns=[z3.Select(heap.sel("$smem", heap.sel("_batches", s)), b)]),
-            z3.ForAll([s], z3.Implies(g, z3.Or(heap.sel("active_task", s) == NONE,
+            smt.forall([s], z3.Implies(g, z3.Or(heap.sel("active_task", s) == NONE,
                                                z3.And(heap.sel("$alloc", heap.sel("active_task", s)),
                                                       eng.isinstance_f(heap.sel("active_task", s), [eng.ct.cls("AsyncTask")])))),
                       patterns=[heap.sel("active_task", s)]),
             # ownership: a scheduler's stack is not shared with another scheduler nor with a batch's items list
-            z3.ForAll([s, s2], z3.Implies(z3.And(g, g2, s != s2), heap.sel("_tasks", s) != heap.sel("_tasks", s2)),
+            smt.forall([s, s2], z3.Implies(z3.And(g, g2, s != s2), heap.sel("_tasks", s) != heap.sel("_tasks", s2)),
                       patterns=[z3.MultiPattern(heap.sel("_tasks", s), heap.sel("_tasks", s2))]),
-            z3.ForAll([s, bb], z3.Implies(z3.And(g, gb), heap.sel("_tasks", s) != heap.sel("items", bb)),
+            smt.forall([s, bb], z3.Implies(z3.And(g, gb), heap.sel("_tasks", s) != heap.sel("items", bb)),
                       patterns=[z3.MultiPattern(heap.sel("_tasks", s), heap.sel("items", bb))]),
         ]
     reg.inv_hooks.append(inv_sched)
 
     # ---- T-sched: unless the scheduler was reset (its stack list replaced), a callout leaves the stack,
     #      the active task and the batch set object as they were (re-entrant use is balanced)
-    def ts_sched(eng, old, new, skip=()):
+    def ts_sched(eng, old, new, skip=(), exclude=None):
         if "sched" in skip:
             return []
         s = q("s!ts")
         g = z3.And(old.sel("$alloc", s), eng.isinstance_f(s, [eng.ct.cls("TaskScheduler")]))
+        if exclude is not None:
+            g = z3.And(g, s != exclude)
         tl = old.sel("_tasks", s)
         ntl = new.sel("_tasks", s)
-        return [z3.ForAll([s], z3.Implies(g, z3.Or(ntl == tl, z3.Not(old.sel("$alloc", ntl)))),
+        jj = z3.Int(fresh_name("j!ts"))
+        return [smt.forall([s], z3.Implies(g, z3.Or(ntl == tl, z3.Not(old.sel("$alloc", ntl)))),
                           patterns=[new.sel("_tasks", s)]),
-                z3.ForAll([s], z3.Implies(z3.And(g, new.sel("_tasks", s) == tl),
+                smt.forall([s], z3.Implies(z3.And(g, new.sel("_tasks", s) == tl),
                                           z3.And(new.sel("$llen", tl) == old.sel("$llen", tl),
-                                                 new.sel("$litem", tl) == old.sel("$litem", tl),
                                                  new.sel("active_task", s) == old.sel("active_task", s),
                                                  new.sel("_batches", s) == old.sel("_batches", s))),
-                          patterns=[new.sel("_tasks", s), new.sel("active_task", s)])]
+                          patterns=[new.sel("_tasks", s), new.sel("active_task", s)]),
+                # elements below the height are the same (slots above it are garbage)
+                smt.forall([s, jj], z3.Implies(z3.And(g, new.sel("_tasks", s) == tl, 0 <= jj, jj < old.sel("$llen", tl)),
+                                              z3.Select(new.sel("$litem", tl), jj) == z3.Select(old.sel("$litem", tl), jj)),
+                          patterns=[z3.Select(new.sel("$litem", new.sel("_tasks", s)), jj),
+                                    z3.Select(new.sel("$litem", old.sel("_tasks", s)), jj)])]
     reg.two_state_hooks.append(ts_sched)
+    reg.pyfuncs["ts_sched_others"] = lambda env, me: z3.And(*ts_sched(env.eng, env.old, env.heap, (), me))
+
+    # cntu(l, i): number of uncomputed futures among l[0:i]  (recursive spec function, definitional axioms)
+    from pyvc.state import AIV, AVV
+    CNT = z3.Function("cnt_uncomputed", AIV, AVV, z3.IntSort(), z3.IntSort())
+
+    def cntu(env, l, i):
+        from pyvc.spec import as_int, as_v
+        row = env.heap.sel("$litem", as_v(l))
+        va = env.heap.get("_value")
+        if env.fx is not None and "cntu" not in env.fx.extra_axioms:
+            r = z3.Const("r!cnt", AIV)
+            a = z3.Const("a!cnt", AVV)
+            k = z3.Int("k!cnt")
+            m_ = z3.Int("m!cnt")
+            env.fx.extra_axioms["cntu"] = z3.And(
+                z3.ForAll([r, a], CNT(r, a, 0) == 0, patterns=[CNT(r, a, 0)]),
+                z3.ForAll([r, a, k], z3.Implies(k >= 0, CNT(r, a, k + 1) == CNT(r, a, k) + z3.If(z3.Select(a, z3.Select(r, k)) == NONE_MARK, 1, 0)),
+                          patterns=[CNT(r, a, k)]),
+                z3.ForAll([r, a, k], z3.Implies(k >= 0, CNT(r, a, k) >= 0), patterns=[CNT(r, a, k)]),
+                # lemma (by induction on m from the two defining equations; discharged separately as
+                # lemma:cnt-monotone): an uncomputed element at k is counted by every later prefix
+                z3.ForAll([r, a, k, m_], z3.Implies(z3.And(0 <= k, k < m_),
+                                                    CNT(r, a, k) + z3.If(z3.Select(a, z3.Select(r, k)) == NONE_MARK, 1, 0) <= CNT(r, a, m_)),
+                          patterns=[z3.MultiPattern(CNT(r, a, k), CNT(r, a, m_))]))
+        return CNT(row, va, as_int(i))
+    reg.pyfuncs["cntu"] = cntu
 
     # ---- event hooks around a flush -----------------------------------------------------------------
     reg.add(C("env.before_flush", params=["self", "batch"], kind="method", modifies="*", trusted=True,
@@ -161,8 +195,107 @@ def register(reg, repo):
                       ("xpost", 0): "raises-only-from-the-flush",
                       ("post", 2): "flushes-iff-something-eligible"}))
 
-    reg.add(C(S + "wait_for", modifies="*", types={"task": "AsyncTask"},
+    reg.macro("sched_kept", ["s"],
+              "(s._tasks is old(s._tasks) or not old(alloc(s._tasks))) and "
+              "implies(s._tasks is old(s._tasks), len(s._tasks) == old(len(s._tasks)) and s.active_task is old(s.active_task) "
+              "and s._batches is old(s._batches) and all(s._tasks[j] is old(s._tasks[j]) for j in range(0, old(len(s._tasks)))))")
+    reg.add(C(S + "wait_for", modifies="*", types={"task": "AsyncTask"}, requires=["task.running == False"],
               post=["computed(task)"], xpost=["True"],
               invariants={1: ["inv()", "two_state('old')"]},
               labels={"site_requires": {"self._continue_with_batch": ["not computed(task)"]},
                       ("post", 0): "returns-only-when-task-computed"}))
+
+    TOP = "len(self._tasks) > 0 and self._tasks[len(self._tasks) - 1] is task"
+    SAME = "self._tasks is old(self._tasks)"
+    BELOW = "all(self._tasks[j] is old(self._tasks[j]) for j in range(0, old(len(self._tasks)) - 1))"
+    D = "old(task._dependencies)"
+    N0 = "old(len(self._tasks))"
+    reg.add(C(S + "_handle_async_task", modifies="*", types={"task": "AsyncTask", "dependency": "FutureBase"},
+              requires=["not computed(task)", TOP, "task.running == False"],
+              post=[
+                  # second visit of a blocked task: done with it until the next flush
+                  "implies(old(blocked(task)) and old(task._dependencies_scheduled), "
+                  "callcount('async_task.AsyncTask._pause_contexts') == 1 and callcount('async_task.AsyncTask._resume_contexts') == 0 "
+                  "and callcount('scheduler.TaskScheduler._continue_with_task') == 0)",
+                  "implies(old(blocked(task)) and old(task._dependencies_scheduled) and " + SAME + ", "
+                  "len(self._tasks) == " + N0 + " - 1 and " + BELOW + ")",
+                  "implies(old(blocked(task)) and old(task._dependencies_scheduled) and not computed(task), task._dependencies_scheduled == False)",
+                  # first visit of a blocked task: contexts resumed, then every uncomputed dependency pushed, in list order
+                  "implies(old(blocked(task)) and not old(task._dependencies_scheduled), "
+                  "callcount('async_task.AsyncTask._resume_contexts') == 1 and callcount('async_task.AsyncTask._pause_contexts') == 0 "
+                  "and callcount('scheduler.TaskScheduler._continue_with_task') == 0)",
+                  "implies(old(blocked(task)) and not old(task._dependencies_scheduled) and " + SAME + " and not computed(task), "
+                  "task._dependencies_scheduled == True and len(self._tasks) == " + N0 + " + cntu(task._dependencies, len(task._dependencies)) and "
+                  "all(self._tasks[j] is old(self._tasks[j]) for j in range(0, " + N0 + ")) and "
+                  "all(implies(not computed(task._dependencies[k]), self._tasks[" + N0 + " + cntu(task._dependencies, k)] is task._dependencies[k]) "
+                  "for k in range(0, len(task._dependencies))))",
+                  # not blocked: run it
+                  "implies(not old(blocked(task)), callcount('scheduler.TaskScheduler._continue_with_task') == 1 and "
+                  "callcount('async_task.AsyncTask._pause_contexts') == 0)",
+                  "implies(" + SAME + ", len(self._tasks) >= " + N0 + " - 1 and " + BELOW + ")",
+              ],
+              xpost=None,
+              invariants={1: [
+                  "_it1 is task._dependencies", "0 <= int(_i1) and int(_i1) <= len(task._dependencies)",
+                  "self._tasks is pre(self._tasks)",
+                  "len(self._tasks) == pre(len(self._tasks)) + cntu(task._dependencies, int(_i1))",
+                  "all(self._tasks[j] is pre(self._tasks[j]) for j in range(0, pre(len(self._tasks))))",
+                  "all(implies(not computed(task._dependencies[k]), self._tasks[pre(len(self._tasks)) + cntu(task._dependencies, k)] is task._dependencies[k]) "
+                  "for k in range(0, int(_i1)))",
+                  "unchanged_since_pre('_value', '_dependencies', '_tasks', '$alloc')",
+                  "only_pre(self._tasks, '$llen', '$litem')",
+                  "all(alloc(self._tasks[j]) and isinstance(self._tasks[j], FutureBase) for j in range(pre(len(self._tasks)), len(self._tasks)))",
+
+                  "len(task._dependencies) == pre(len(task._dependencies))",
+                  "all(task._dependencies[k] is pre(task._dependencies[k]) for k in range(0, len(task._dependencies)))",
+              ]},
+              labels={"ts_skip": ("sched",),
+                      "site_assumes_after": {
+                          # the context hooks of this task do not trip the runaway-recursion guard of this scheduler
+                          "task._pause_contexts": ["self._tasks is old(self._tasks)"],
+                          "task._resume_contexts": ["self._tasks is old(self._tasks)"]},
+                      ("post", 4): "first-visit-pushes-every-uncomputed-dependency-in-order",
+                      ("post", 1): "second-visit-pops", ("post", 2): "second-visit-clears-scheduled-flag",
+                      ("post", 0): "second-visit-pauses-contexts", ("post", 3): "first-visit-resumes-contexts",
+                      ("post", 5): "unblocked-task-is-continued"}))
+
+    reg.add(C(S + "_continue_with_task", modifies="*", types={"task": "AsyncTask"},
+              requires=["not computed(task)", "not blocked(task)", "task.running == False"],
+              post=["implies(self._tasks is old(self._tasks), self.active_task is old(self.active_task))",
+                    "computed(task) or task._dependencies_scheduled == False",
+                    "callcount('async_task.AsyncTask._continue') == 1 or (computed(task) and callcount('async_task.AsyncTask._continue') == 0)",
+                    "call_before('async_task.AsyncTask._resume_contexts', 'async_task.AsyncTask._continue')"],
+              xpost=None,
+              labels={"site_requires": {"task._continue": ["self.active_task is task", "task._contexts_active == True"]},
+                      # E4: the task being stepped is not advanced re-entrantly while its body runs
+                      "site_assumes_after": {"task._continue": ["task.running == old(task.running)"],
+                                             "task._resume_contexts": ["self._tasks is old(self._tasks)"]},
+                      ("post", 0): "active-task-restored", ("post", 2): "exactly-one-step"}))
+
+    reg.add(C(S + "_execute", modifies="*", types={"root_task": "AsyncTask", "task": "FutureBase"},
+              requires=["root_task.running == False"],
+              post=["implies(self._tasks is old(self._tasks), len(self._tasks) == old(len(self._tasks)) and "
+                    "all(self._tasks[j] is old(self._tasks[j]) for j in range(0, old(len(self._tasks)))))"],
+              xpost=["isinstance(exc, RuntimeError)", "self._tasks is not old(self._tasks)",
+                     "len(self._tasks) == 0", "self.active_task is None",
+                     "all(not has(self._batches, b) for b in vals())"],
+              invariants={1: [
+                  "inv()", "two_state('old', 'sched')",
+                  "implies(self._tasks is old(self._tasks), self.active_task is old(self.active_task) and self._batches is old(self._batches))",
+                  "self._tasks is old(self._tasks) or not old(alloc(self._tasks))",
+                  "ts_sched_others(self)",
+                  "implies(self._tasks is old(self._tasks), len(self._tasks) >= int(init_num_tasks) and "
+                  "all(self._tasks[j] is old(self._tasks[j]) for j in range(0, int(init_num_tasks))))",
+                  "int(init_num_tasks) == old(len(self._tasks))",
+              ]},
+              calls={"task._compute": "futures.FutureBase._compute!virtual", "task.batch": None},
+              labels={"site_assumes": {"self._handle_async_task": ["task.running == False"]},
+                      # a lazily computed future's provider does not trip the runaway-recursion guard and swallow it
+                      "site_assumes_after": {"task._compute": ["self._tasks is old(self._tasks)"],
+                                             "task.set_error": ["self._tasks is old(self._tasks)"]},
+                      ("post", 0): "stack-restored-to-entry-height",
+                      ("xpost", 0): "only-the-runaway-guard-escapes", ("xpost", 2): "guard-leaves-no-task",
+                      ("xpost", 3): "guard-clears-active-task", ("xpost", 4): "guard-clears-batches"}))
+
+    # ---- module-level accessors ----------------------------------------------------------------------------
+    reg.add(C("scheduler.get_scheduler!body", params=[], modifies=[], post=[], xpost=None, trusted=True))
